@@ -1,1 +1,23 @@
-//! Net simulator (DESIGN W2/W3/W5/W6/W7)
+//! vnet — swarm network simulator (DESIGN W2/W3/W5/W6/W7): real `libp2p_swarm::Swarm`s over an
+//! in-memory scripted transport (real plaintext + yamux on top), driven by a deterministic,
+//! PRNG-seeded scheduler that decides which swarm or background task makes progress next.
+pub mod hub;
+pub mod net;
+pub mod probe;
+pub mod raw;
+pub mod recorder;
+pub mod transport;
+
+pub use hub::{Hub, SimExec, TaskSet};
+pub use net::{Net, Node, Pick};
+pub use probe::{HCmd, HEv, HandlerCtl, Probe, ProbeCtl, ProbeEvent, ProbeIn, ProbeOut};
+pub use raw::{Raw, RawCtl, RawEvent, RawStream};
+pub use recorder::{BEv, Decision, Point, Recorder, dial_error_kind, listen_error_kind};
+pub use transport::{Board, DialRec, Outcome, Route, strip_p2p};
+
+pub fn keypair(seed: u64) -> libp2p_identity::Keypair {
+    let mut b = [0u8; 32];
+    let mut r = vmon::Rng::new(seed ^ 0x4B45_5950);
+    r.fill(&mut b);
+    libp2p_identity::Keypair::ed25519_from_bytes(b).expect("32 bytes")
+}
